@@ -25,6 +25,9 @@ KV_TEXT = {
     # values that contain a string literal after something else (a byte string, a comparison)
     "bytestr": '{k} = b"x"', "cmpstr": '{k} = z == "root"', "charquote": "{k} = z.find('\"').is_some()",
     "rawstrval": '{k} = r#"a"b"#',
+    # values with separators inside brackets: call arguments, a closure body, a vec! literal
+    "callcomma": "{k} = std::cmp::max(x, y)", "closureval": "{k} = Some(x).map(|v| {{ let w = v; w + 1 }}).unwrap_or(0)",
+    "vecval": "{k} = vec![x, y].len()",
     "dbg": "{k}:? = x", "debug": "{k}:debug = x", "disp": "{k}:% = x", "display": "{k}:display = x",
     "shortdbg": "x:?", "err": "{k}:err = e", "sval": "{k}:sval = x", "serde": "{k}:serde = x",
     "ref=7": "ref = 7", "ref=0": "ref = 0", "ref=max": "ref = 4294967295", "ref=07": "ref = 07", "ref=x": "ref = x",
@@ -109,6 +112,10 @@ def render_case(case, uid, macroset=None):
     elif s["trailing"] == "two":
         msg += " {} {:?}"
         args_after += ", x, y"
+    elif s["trailing"] == "named":
+        # named format arguments: `name = value` after the message looks like a key-value
+        msg += " {a} {b}"
+        args_after += ", a = x, b = y + 1"
     elif s["trailing"] == "reflikearg":
         msg += " {}"
         args_after += ', "[ref: 5] arg"'
@@ -125,7 +132,7 @@ def render_case(case, uid, macroset=None):
             # identifier characters outside ASCII directly in front of a configured name / in the module path
             "unicodeprefix": "\u65e5\u5fd7" + macro, "unicodemod": "\u0436\u0443\u0440\u043d\u0430\u043b::" + macro, "submod": mod + "::sub::" + macro,
             "shortmod": "l::" + macro, "noliteral": macro, "noargs": macro, "linecomment": macro,
-            "blockcomment": macro, "doccomment": macro, "instring": macro, "instringopen": macro, "rawstring": macro, "starcomment": macro,
+            "blockcomment": macro, "doccomment": macro, "instring": macro, "instringopen": macro, "rawstring": macro, "starcomment": macro, "nolit_outer": macro,
             "nestedcomment": macro, "nestedcomment3": macro, "bannercomment": macro, "upper": macro.upper(),
             "crateprefixed": "crate::" + mod + "::" + macro}.get(head)
     if name is None:
@@ -138,7 +145,7 @@ def render_case(case, uid, macroset=None):
         return sum(len(x) for x in out)
     # the inter-token layout also applies between the `!` and the opening parenthesis (every second statement)
     commentish = head in ("linecomment", "blockcomment", "doccomment", "instring", "instringopen", "rawstring", "starcomment", "bannercomment",
-                          "nestedcomment", "nestedcomment3")
+                          "nestedcomment", "nestedcomment3", "nolit_outer")
     hg = g if (uid % 4 == 0 and not commentish) else ""          # between `!` and `(`
     hb = g if (uid % 4 == 2 and not commentish) else ""          # between the name and `!`
     out.append(name + hb + "!" + hg + "(")
@@ -187,6 +194,10 @@ def render_case(case, uid, macroset=None):
     elif head == "instring":
         inner = call.replace("\\", "\\\\").replace('"', '\\"').replace("\n", " ").replace("\r", " ")
         body = '    let _s%d = "call %s here";' % (uid, inner)
+        stmt_off = None
+    elif head == "nolit_outer":
+        # a configured name without a literal message, as an argument of another macro whose own arguments go on with `; "text"`
+        body = '    wrap!(%s!(n = 1); "outer literal %d", 3); also!(%s!(n = x), k; "second outer literal");' % (name, uid, name)
         stmt_off = None
     elif head == "instringopen":
         # string literals on one line: one with an odd number of escaped quotes, one that ends with `name!(`, and a
